@@ -7,10 +7,12 @@ Definition sid (c : scase) : N := fst (fst c).
 Definition kid (c : kcase) : N := fst (fst (fst (fst c))).
 Definition spid (c : splitcase) : N := fst (fst c).
 Definition fid (c : findcase) : N := fst (fst (fst c)).
+Definition pid (c : pcase) : N := fst (fst (fst (fst (fst c)))).
 
 (* lists of (case id, bit mask of the components that differ) *)
 Definition failing_scripts := failing (scheck_code T) sid (scases T).
 Definition failing_keys := failing (kcheck_code T) kid (kcases T).
 Definition failing_splits := failing splitcheck_code spid (splitcases T).
 Definition failing_finds := failing (findcheck_code T) fid (findcases T).
-Definition counts := (length (scases T), length (kcases T), length (splitcases T), length (findcases T)).
+Definition failing_parses := failing pcheck_code pid (parsecases T).
+Definition counts := (length (scases T), length (kcases T), length (splitcases T), length (findcases T), length (parsecases T)).
